@@ -4,20 +4,21 @@ import os
 
 VERIF = os.path.dirname(os.path.dirname(os.path.abspath(__file__)))
 
-CLAIMS = {
-    "C13": dict(
-        text="Coq theorems over an executable model of dump_cookie / both parse_cookie levels: the escape table (a 256-value "
-             "sweep re-proved against the table regenerated from the source's regex and map on every run), value round trip "
-             "through both parsers for every token key and every Unicode scalar-value string, and no-injection of the emitted "
-             "value. The model is tied to the code by the regenerated tables/pattern pins and by differential execution "
-             "(extracted OCaml model vs werkzeug) on ~24k cases per quick run.",
-        note="Trusted: Coq kernel; translator tools/c13.py; ExtrOcamlBasic extraction + driver; hand-written matcher for _cookie_re "
-             "(validated differentially, header text without LF inside unquoted values); UTF-8 model; Domain/Path/Expires rendering "
-             "is an input of the attribute-assembly model; the test client's jar is covered by the harness only.",
-        design="6/C13"),
-}
+import glob
+import importlib
+import sys
 
-NOT_YET = {}
+sys.path.insert(0, VERIF)
+CLAIMS = {}
+NOT_APPLICABLE = {}
+for _f in sorted(glob.glob(os.path.join(VERIF, "tools", "c[0-9][0-9].py"))):
+    _pid = os.path.basename(_f)[:-3].upper()
+    _m = importlib.import_module(f"tools.{_pid.lower()}")
+    if getattr(_m, "CLAIM", None):
+        CLAIMS[_pid] = _m.CLAIM
+    elif getattr(_m, "NOT_APPLICABLE", None):
+        NOT_APPLICABLE[_pid] = _m.NOT_APPLICABLE
+
 
 
 def main():
@@ -41,7 +42,7 @@ def main():
                              "regenerating translator and a differential correspondence check (extracted model vs implementation)",
             })
         else:
-            na.append({"property_id": pid, "reason": NOT_YET.get(pid, "not claimed yet: model and theorems for this property are not built in this revision (no check registered; see DESIGN.md section 6 for the plan)")})
+            na.append({"property_id": pid, "reason": NOT_APPLICABLE.get(pid, "not claimed yet: model and theorems for this property are not built in this revision (no check registered; see DESIGN.md section 6 for the plan)")})
     man = {
         "version": 1,
         "setup_cmd": "./setup.sh",
